@@ -1469,4 +1469,38 @@ def walkOps : List (String × String) := [
   ("http-headers", "modules/http.HttpRequest.AddHeaders 0")
 ]
 
+/-! ## Part 6 — several tables merged into one map; candidates probed in a priority order
+
+Two places where the code walks a SLICE (a fixed order) and the result is a function of that
+order: `DefaultGlobals` writes the builtin tables of five packages one after the other into the
+globals map (two tables may define the same name: the LATER table wins), and
+`readFileWithExtensions` tries the configured extensions one after the other (the FIRST file that
+exists is the module).  The adversaries: the visiting order inside each table; the order in which
+the answers of the filesystem arrive. -/
+
+/-- `DefaultGlobals`: `tabs` are the tables in the order of the slice, each one in the visiting
+    order of its own `range`; every entry is written under its own key -/
+def mergeTables (tabs : List (List (String × V))) (m0 : AMap V) : AMap V :=
+  tabs.foldl (fun m t => foldInsert (fun _ _ => true) (fun _ v => v) t m) m0
+
+/-- Spec: the binding of a name is that of the LAST table (in slice order) that defines it -/
+def lastDefining (tabs : List (List (String × V))) (m0 : AMap V) (k : String) : Option V :=
+  match tabs.reverse.findSome? (fun t => (t.find? (fun kv => kv.1 == k)).map (·.2)) with
+  | some v => some v
+  | none => m0 k
+
+/-- the forbidden variant: the tables themselves are held in a Go map and visited in ITS order -/
+def mergeTablesRanged (perm : List Nat) (tabs : List (List (String × V))) (m0 : AMap V) : AMap V :=
+  mergeTables (applyPerm perm tabs) m0
+
+/-- `readFileWithExtensions`: the extensions are tried one after the other, the first one whose
+    file exists (and can be read) is the module's file; `present` = the filesystem -/
+def pickExtension (exts : List String) (present : String → Bool) : Option String :=
+  exts.find? present
+
+/-- the forbidden variant: all candidates are probed at once and the first answer that ARRIVES
+    wins (`arrival` = the order in which the probes finish: scheduling, latency per file) -/
+def pickExtensionRaced (arrival : List Nat) (exts : List String) (present : String → Bool) : Option String :=
+  (applyPerm arrival exts).find? present
+
 end Risor.C05
